@@ -82,6 +82,37 @@ def run(ctx):
         except ValueError as e:
             ctx.count('generator-rejected', str(e)[:40])
             continue
+        if k % 3 == 0:
+            # history: the list is queried (indices, sizes, columns), then a term is resized IN PLACE through its public
+            # attribute (n_splines of a spline term or marginal, coding of a factor term), and queried again without a
+            # recompile — sizes, indices and columns are those of the configuration as it is now
+            tl = pr.terms
+            try:
+                for i in range(len(tl)):
+                    tl.get_coef_indices(i)
+                _ = tl.n_coefs
+                tl.build_columns(pr.X)
+            except Exception:  # noqa  (reported below by the regular streams)
+                pass
+            leaves = [s_ for t in tl if not t.isintercept for s_ in (t._terms if t.istensor else [t])]
+            cands = [s_ for s_ in leaves if s_._name in ('spline_term', 'factor_term')]
+            edit = 'none possible'
+            if cands:
+                s_ = rng.choice(cands)
+                if s_._name == 'spline_term':
+                    new_n = int(s_.n_splines) + rng.choice([1, 2, 3])
+                    if rng.random() < 0.3 and int(s_.n_splines) - 1 >= int(s_.spline_order) + 1:
+                        new_n = int(s_.n_splines) - 1
+                    s_.n_splines = new_n
+                    edit = 'n_splines of a %s' % ('tensor marginal' if any(t.istensor and s_ in t._terms for t in tl) else 'spline term')
+                else:
+                    s_.coding = 'dummy' if s_.coding == 'one-hot' else 'one-hot'
+                    edit = 'coding of a factor %s' % ('marginal' if any(t.istensor and s_ in t._terms for t in tl) else 'term')
+                pr.tokens = termgen.encode_terms(tl)
+                pr.desc['edited'] = edit
+            ctx.count('history: in-place edit after a first round of queries', edit)
+        else:
+            ctx.count('history: in-place edit after a first round of queries', 'no history')
         if not termgen.knot_safe(pr):
             skipped += 1
             continue
